@@ -25,9 +25,10 @@ def poll2uv(e):
 # --------------------------------------------------------------------------
 def gen_case(rng, ring, strict):
     nsl = rng.randint(2, 6)
-    kinds = "sssspqe"
+    kinds = "sssttttpqe"
     est_h = [0]
-    masks = [1, 1, 2, 2, 3, 3, 5, 7, 4, 8, 9, 0]
+    # every non-empty combination of the four flags, each equally likely; 0 (= stop) now and then
+    masks = list(range(1, 16)) * 2 + [0]
 
     def hsel():
         return rng.randrange(max(1, est_h[0] + (1 if rng.random() < 0.1 else 0)))
@@ -38,7 +39,7 @@ def gen_case(rng, ring, strict):
         if r < 0.22:
             return "S%d,%d" % (hsel(), rng.choice(masks))
         if r < 0.31:
-            return "T%d,%d" % (hsel(), rng.choice([1, 2, 3, 7, 15]))
+            return "T%d,%d" % (hsel(), rng.randint(1, 15))
         if r < 0.39:
             return "C%d" % hsel()
         if r < 0.42:
@@ -63,10 +64,14 @@ def gen_case(rng, ring, strict):
             return "D%d" % sl
         if r < 0.90:
             return "H%d" % sl
-        if r < 0.92:
+        if r < 0.905:
             return "G%d" % sl
-        if r < 0.94:
+        if r < 0.915:
             return "L%d" % sl
+        if r < 0.935:
+            return "B%d" % sl
+        if r < 0.945:
+            return "W%d" % sl
         return "R" if top else "K%d" % sl
 
     ops = []
@@ -83,6 +88,10 @@ def gen_case(rng, ring, strict):
             est_h[0] += 1
         if rng.random() < 0.6:
             ops.append("K%d" % i)
+        if rng.random() < 0.35:
+            ops.append("B%d" % i)
+        if rng.random() < 0.1:
+            ops.append("W%d" % i)
     nrun = 0
     for _ in range(rng.randint(4, 26)):
         o = op(True)
@@ -98,6 +107,21 @@ def gen_case(rng, ring, strict):
     for _ in range(rng.randint(0, 24)):
         behs.append(" ".join(op(False) for _ in range(rng.choice([0, 0, 1, 1, 2, 3, 4]))))
     return "%d %d ; %s ; %s" % (ring, strict, " ".join(ops), " | ".join(behs))
+
+
+def sweep_cases():
+    """All 15 non-empty flag sets as first mask, all 15 as second mask (225 pairs), with and
+    without the ring, on a TCP loopback pair on which every condition is made true (data,
+    urgent data, peer shutdown): poll handle start / restart with the other mask / stop /
+    events arriving after the stop / restart / close; bare watcher start / partial stop."""
+    out = []
+    for ring in (1, 0):
+        for m1 in range(1, 16):
+            for m2 in range(1, 16):
+                out.append("%d 0 ; O0,t I0 S0,%d K0 B0 R S0,%d R T0,0 B0 K0 R R S0,%d W0 R C0 B0 R ; "
+                           % (ring, m1, m2, m1))
+                out.append("%d 1 ; O0,t J0 S0,%d K0 B0 R T0,%d R W0 R S0,%d R C0 R ; " % (ring, m1, m2, m2))
+    return out
 
 
 # fixed scenarios (the regression cases of the two repaired defects are in corpus/C14/cases.txt)
@@ -326,8 +350,8 @@ def monitor_tokens(toks):
 
 
 def run_harness(exe, cases, shards=8):
-    """Run the harness; a case on which it dies (abort() inside libuv, a crash) yields None
-    and the run continues behind it."""
+    """Run the harness (one child process per case); a case on which it dies (abort() inside
+    libuv, a crash, a hang) yields None and the run continues behind it."""
     import concurrent.futures
     n = (len(cases) + shards - 1) // shards
     parts = [cases[i:i + n] for i in range(0, len(cases), n)]
@@ -337,7 +361,7 @@ def run_harness(exe, cases, shards=8):
         while len(out) < len(part):
             rest = part[len(out):]
             o, rc, err = vf.run_lines([exe], rest, timeout=300)
-            o = o[:len(rest)]
+            o = [None if "DIED" in l.split() else l for l in o[:len(rest)]]
             out += o
             if len(o) < len(rest):
                 out.append(None)      # the case after the last complete line killed it
@@ -365,7 +389,7 @@ def main():
     if os.path.exists(cp):
         corpus = [l.rstrip("\n") for l in open(cp) if l.strip() and not l.startswith("#")]
     n = 120000 if thorough else 2400
-    cases = list(FIXED) + corpus
+    cases = list(FIXED) + corpus + sweep_cases()
     for i in range(n):
         ring = i % 2
         strict = 1 if chk.rng.random() < 0.6 else 0
